@@ -174,8 +174,9 @@ def run(prop, tier, seed, opts):
         wall = time.time() - t0
         cov = dict(states=max(1, distinct), transitions=max(1, states), traces_validated_against_impl=n_sched + n_events,
                    evaluations=n_sched + n_calls, distinct_nontrivial=n_sched,
-                   rule="every complete schedule of 2 goroutines over the 5 gates (lookup, tokget, readtokens, tokput, insert) for 3 workloads "
-                        "(cold cache same name; two directories with relative includes; RegisterString || Render) replayed through the hooks with "
+                   rule="every complete schedule of 2 goroutines over the 6 gates (lookup, tokget, readtokens, tokput, insert, render) for 4 workloads "
+                        "(cold cache same name; two directories with relative includes; RegisterString || Render; auto-reload of a stale cached "
+                        "copy) replayed through the hooks with "
                         "the model's result per call; all interleavings of 3 goroutines model-checked; ungated stress of 8 goroutines in 3 "
                         "cache modes under the race detector with serial comparison; recorded RegisterString||Render histories checked for "
                         "linearizability by Trace_C02; every schedule has 2 goroutines interleaved (non-trivial)",
